@@ -140,10 +140,10 @@ let rreply_of (e : lent) : rreply =
   | _ -> RDeserErr
 
 (* ---------- candidates ---------- *)
-type cand = { s : fstate; pos : int array; inflight : int option }
+type cand = { s : fstate; pos : int array; inflight : int option; site : string (* the abort site the model went through, "-" if none *) }
 
 let scrub (s : fstate) : fstate = { s with f_log = []; f_dbs = [] }
-let same_cand a b = a.pos = b.pos && a.inflight = b.inflight && a.s = b.s
+let same_cand a b = a.pos = b.pos && a.inflight = b.inflight && a.site = b.site && a.s = b.s
 let add_cand (acc : cand list ref) (c : cand) : bool =
   if List.exists (same_cand c) !acc then false else (acc := c :: !acc; true)
 
@@ -193,10 +193,33 @@ let rev_replies (cx : ctx) (c : cand) (l : int) : (n * areply) list =
     | e :: _ when e.e_ep = 1 && e.e_l = l -> [(n_of_int t, areply_of e)]
     | _ -> []))
 
+let csite_name = function
+  | Site_poisoned -> "poisoned"
+  | Site_add_update_tower_load_unwrap -> "add_update_tower_load_unwrap"
+  | Site_store_tower_record_unwrap -> "store_tower_record_unwrap"
+  | Site_store_appointment_receipt_unwrap -> "store_appointment_receipt_unwrap"
+  | Site_store_pending_appointment_unwrap -> "store_pending_appointment_unwrap"
+  | Site_store_invalid_appointment_unwrap -> "store_invalid_appointment_unwrap"
+  | Site_store_misbehaving_proof_unwrap -> "store_misbehaving_proof_unwrap"
+  | Site_load_misbehaving_proof_unwrap -> "load_misbehaving_proof_unwrap"
+  | Site_abandon_remove_tower_unwrap -> "abandon_remove_tower_unwrap"
+  | Site_retrier_load_appointment_unwrap -> "retrier_load_appointment_unwrap"
+  | Site_retrier_start_status_unwrap -> "retrier_start_status_unwrap"
+  | Site_send_appointment_recover_unwrap -> "send_appointment_recover_unwrap"
+let fsite_name = function SClient s -> csite_name s | Site_gettowerinfo_status_unwrap -> "gettowerinfo_status_unwrap"
+let site_of_out (o : fout) : string option =
+  match o with
+  | OPanic (SClient Site_poisoned) | ORun (OutAbort (SClient Site_poisoned)) -> None
+  | OPanic s -> Some (fsite_name s)
+  | ORun (OutAbort s) -> Some (fsite_name s)
+  | _ -> None
+
 let apply_op (cx : ctx) ?(down_override = -1) (c : cand) (o : fop) : (cand * fout) option =
   let (s', out) = fstep (scrub c.s) o in
   match consume cx ~down_override c.pos s'.f_log with
-  | Some pos -> Some ({ c with s = scrub s'; pos }, out)
+  | Some pos ->
+    let site = match site_of_out out with Some x when c.site = "-" -> x | _ -> c.site in
+    Some ({ c with s = scrub s'; pos; site }, out)
   | None -> None
 
 let idle_towers (s : fstate) : n list =
@@ -221,7 +244,7 @@ let closure (cx : ctx) (allow_wake : bool) (start : cand list) : cand list * boo
       (List.sort_uniq compare c.s.f_tasks);
     (match c.inflight with
      | Some l ->
-       (match apply_op cx { c with inflight = None } (FRevocation (n_of_int l, rev_replies cx c l)) with
+       (match apply_op cx { c with inflight = None } (FRevocation (n_of_int l, [], rev_replies cx c l)) with
         | Some (c', _) -> push c' | None -> ())
      | None -> ());
     if List.length !acc > cap then capped := true
@@ -232,18 +255,27 @@ let out_code (o : fout) : int = match o with OOk -> 0 | OErr _ -> 1 | OPanic _ -
 
 (* the durable states (and log positions) a KILL can leave behind for one candidate *)
 let kill_cand (cx : ctx) (c : cand) : cand list =
-  let base = [ { s = scrub (restart_with c.s c.s.f_c.c_db); pos = c.pos; inflight = None } ] in
+  let base = [ { s = scrub (restart_with c.s c.s.f_c.c_db); pos = c.pos; inflight = None; site = "-" } ] in
   let partial (o : fop) : cand list =
     let s0 = scrub c.s in
     let (s', _) = fstep s0 o in
     let dbs = crash_states o s0 in
-    let poss = consume_prefixes cx c.pos s'.f_log in
-    List.concat (List.map (fun d -> List.map (fun p -> { s = scrub (restart_with c.s d); pos = p; inflight = None }) poss) dbs) in
+    (* the requests made before the kill: any per-tower prefix of the emitted ones *)
+    let per_tower = List.init cx.nt (fun t ->
+      consume_prefixes cx c.pos (List.filter (fun rq -> (match rq with ReqRegister x -> int_of_n x | ReqAdd (x, _) -> int_of_n x) = t) s'.f_log)) in
+    let poss = List.fold_left (fun acc (t, opts) ->
+      List.concat (List.map (fun (p : int array) -> List.map (fun (q : int array) -> let r = Array.copy p in r.(t) <- q.(t); r) opts) acc))
+      [Array.copy c.pos] (List.mapi (fun t o -> (t, o)) per_tower) in
+    List.concat (List.map (fun d -> List.map (fun p -> { s = scrub (restart_with c.s d); pos = p; inflight = None; site = "-" }) poss) dbs) in
   let tasks = List.sort_uniq compare c.s.f_tasks in
   let from_tasks = List.concat (List.map (fun t ->
     List.concat (List.map (fun more -> partial (FRetrierRun (t, [attempt_for cx c.pos (int_of_n t) more]))) [true; false])) tasks) in
+  let rec perms = function
+    | [] -> [[]]
+    | l -> List.concat (List.map (fun x -> List.map (fun p -> x :: p) (perms (List.filter (fun y -> y <> x) l))) l) in
   let from_rev = match c.inflight with
-    | Some l -> partial (FRevocation (n_of_int l, rev_replies cx c l))
+    | Some l -> List.concat (List.map (fun order ->
+        partial (FRevocation (n_of_int l, List.map n_of_int order, rev_replies cx c l))) (perms (List.init cx.nt (fun t -> t))))
     | None -> [] in
   base @ from_tasks @ from_rev
 
@@ -305,7 +337,6 @@ let handle (lineno : int) (_line : string) (r : reader) : unit =
     if (s.k = 5 || s.k = 12) && s.res = 2 then st.settle_caps <- st.settle_caps + 1;
     List.iter (fun e -> st.requests <- st.requests + 1;
                 if e.e_ep = 1 then bump st.acls e.e_cls else if e.e_ep = 0 then bump st.rcls e.e_cls) s.o.log) steps;
-  (* ----- monitors, on the implementation's observations ----- *)
   let undec = Array.exists (fun s -> has_undecodable s.o) steps in
   let failed_corr = ref false in
   let corr_fail step what m i =
@@ -313,8 +344,8 @@ let handle (lineno : int) (_line : string) (r : reader) : unit =
       failed_corr := true; st.corr_fail <- st.corr_fail + 1;
       Printf.printf "FAIL corr line=%d family=%d step=%d what=%s model=[%s] impl=[%s] case=%s\n" lineno family step what m i case_key
     end in
-  if undec then corr_fail (-1) "undecodable-value-in-observation" "" ""
-  else begin
+  let final_site = ref "-" in
+  let report_monitors () =
     let sc = { sc_nt = nn nt; sc_max_retry = nn o0; sc_auto = nn o1; sc_interval = nn o2;
                sc_steps = Array.to_list (Array.map (fun s ->
                  { ss_kind = nn s.k; ss_a = nn s.a; ss_b = nn s.b; ss_res = nn s.res; ss_dur = nn s.dur; ss_obs = mon_obs s.o }) steps) } in
@@ -325,13 +356,13 @@ let handle (lineno : int) (_line : string) (r : reader) : unit =
         if not (Hashtbl.mem seen code) then begin
           Hashtbl.replace seen code ();
           st.mon_fail <- st.mon_fail + 1; bump st.monc code;
-          Printf.printf "FAIL mon line=%d prop=%s check=%d family=%d step=%d t=%d l=%d case=%s\n" lineno prop code family
-            (int_of_n step) (int_of_n t) (int_of_n l) case_key
+          Printf.printf "FAIL mon line=%d prop=%s check=%d family=%d step=%d t=%d l=%d site=%s case=%s\n" lineno prop code family
+            (int_of_n step) (int_of_n t) (int_of_n l) !final_site case_key
         end) vs in
     report "C05" (mon_c05 sc);
     report "C14" (mon_c14 sc);
-    report "C13" (mon_c13 sc)
-  end;
+    report "C13" (mon_c13 sc) in
+  if undec then corr_fail (-1) "undecodable-value-in-observation" "" "";
   (* ----- latency of delivery after a recovery (evidence only) ----- *)
   (let waiting = Array.make nt (-1) in
    Array.iter (fun s ->
@@ -359,7 +390,7 @@ let handle (lineno : int) (_line : string) (r : reader) : unit =
         Array.of_list (List.rev !acc)) in
     let up = Array.make nt true in
     let running = ref false in
-    let cands = ref [ { s = scrub f_init; pos = Array.make nt 0; inflight = None } ] in
+    let cands = ref [ { s = scrub f_init; pos = Array.make nt 0; inflight = None; site = "-" } ] in
     let seg_from = ref 0 in
     let cx = ref { nt; up; seglog = build_seglog 0 (seg_end 0) } in
     (try
@@ -407,7 +438,7 @@ let handle (lineno : int) (_line : string) (r : reader) : unit =
                  match upcoming !cx c.pos t with e :: _ when e.e_ep = 0 -> rreply_of e | _ -> RConnErr in
              FRegister (n_of_int t, rp)) ()
          | 3 -> if stp.a < nt then up.(stp.a) <- (stp.b = 1)
-         | 4 -> visible (fun c -> FRevocation (n_of_int stp.a, rev_replies !cx c stp.a)) ()
+         | 4 -> visible (fun c -> FRevocation (n_of_int stp.a, [], rev_replies !cx c stp.a)) ()
          | 11 -> if !running then cands := List.map (fun c -> { c with inflight = Some stp.a }) !cands
          | 7 -> visible (fun _ -> FManualRetry (n_of_int stp.a)) ()
          | 8 -> visible (fun _ -> FAbandon (n_of_int stp.a)) ()
@@ -445,8 +476,13 @@ let handle (lineno : int) (_line : string) (r : reader) : unit =
         end
       done
     with Exit -> ()
-       | Failure m -> corr_fail (-1) ("driver-failure:" ^ m) "" "")
-  end
+       | Failure m -> corr_fail (-1) ("driver-failure:" ^ m) "" "");
+    (match List.sort_uniq compare (List.map (fun c -> c.site) !cands) with
+     | [] -> ()
+     | l -> final_site := String.concat "|" l)
+  end;
+  (* ----- monitors, on the implementation's observations ----- *)
+  if not undec then report_monitors ()
 
 let show_hist h = String.concat "," (List.map (fun (k, v) -> Printf.sprintf "%d:%d" k v) (List.sort compare (Hashtbl.fold (fun k v a -> (k, v) :: a) h [])))
 
